@@ -126,6 +126,9 @@ var specs = []spec{
 			{File: "shard/index/utils.go", Name: "opDelete", As: "opDelete"}, {File: "shard/index/utils.go", Name: "opSkip", As: "opSkip"}}},
 	distSetSpec("Len"), distSetSpec("AddWithLimit"), distSetSpec("Add"), distSetSpec("AddAlreadyUnique"), distSetSpec("Sort"),
 	flatStepSpec,
+	// C18: a parameter struct whose Validate is integer range checks only
+	{File: "models/quantizer.go", Func: "Validate", Recv: "ProductQuantizerParameters", Module: "Validate", Ext: true,
+		Structs: []structSpec{{File: "models/quantizer.go", Name: "ProductQuantizerParameters"}}},
 }
 
 // the body of the ForEach callback of flat.IndexFlat.Search after the filter test: the bounded insertion of
